@@ -240,6 +240,8 @@ class RealBN:
         if tuple(y.shape) != tuple(shape):
             self.fail("batchnorm/output-shape", line=line, got=list(y.shape))
         B, dim = shape[0], shape[-1]
+        if x.numel() == 0:
+            return res   # nothing to measure on an empty input (the outcome itself is compared with the model's)
         x3 = x.reshape(B, -1, dim)
         y3 = y.reshape(B, -1, dim)
         S = x3.shape[1]
